@@ -87,8 +87,12 @@ func TestVerif_C18Stress(t *testing.T) { //nolint:cyclop
 	var portMu sync.Mutex
 	nextPort := 20000
 	gen := &stressGen{relayGen: relayGen{rw}, next: func() int { portMu.Lock(); defer portMu.Unlock(); nextPort++; return nextPort }}
+	srvLnAddr := &net.TCPAddr{IP: net.IPv4(10, 0, 0, 1), Port: 3478}
+	srvLn, _ := sim.NewListener(srvLnAddr)
 	srv, err := NewServer(ServerConfig{
 		PacketConnConfigs: []PacketConnConfig{{PacketConn: srvConn, RelayAddressGenerator: gen,
+			PermissionHandler: func(net.Addr, net.IP) bool { slow(); return true }}},
+		ListenerConfigs: []ListenerConfig{{Listener: srvLn, RelayAddressGenerator: gen,
 			PermissionHandler: func(net.Addr, net.IP) bool { slow(); return true }}},
 		Realm: "realm1", LoggerFactory: lf, PermissionTimeout: 300 * time.Millisecond, ChannelBindTimeout: 500 * time.Millisecond,
 		AuthHandler: func(ra *RequestAttributes) (string, []byte, bool) {
@@ -232,6 +236,55 @@ func TestVerif_C18Stress(t *testing.T) { //nolint:cyclop
 			time.Sleep(20 * time.Millisecond)
 		}
 	}()
+	// control connections on the stream listener: they come and go while the server runs (the server tracks the accepted
+	// connections) and several are still open when it is closed
+	var streamWG sync.WaitGroup
+	streamRng := verifsim.NewRNG(rng.U64())
+	var streamMu sync.Mutex
+	for i := 0; i < 6; i++ {
+		streamWG.Add(1)
+		go func(i int) {
+			defer streamWG.Done()
+			for round := 0; ; round++ {
+				select {
+				case <-stop:
+					return
+				default:
+				}
+				mine, theirs := verifsim.NewStreamPair(&net.TCPAddr{IP: net.IPv4(10, 0, 0, 3), Port: 6000 + i*100 + round%100}, srvLnAddr)
+				if !srvLn.Inject(theirs) {
+					_ = mine.Close()
+					return
+				}
+				go func() {
+					buf := make([]byte, 2048)
+					for {
+						if _, err := mine.Read(buf); err != nil {
+							return
+						}
+					}
+				}()
+				streamMu.Lock()
+				n := 1 + streamRng.Intn(6)
+				stay := i < 3 && round > 0 // the first three keep their second connection open until the server closes it
+				streamMu.Unlock()
+				for k := 0; k < n; k++ {
+					m, _ := stun.Build(stun.TransactionID, stun.BindingRequest)
+					if _, err := mine.Write(m.Raw); err != nil {
+						break
+					}
+					sent.Add(1)
+					time.Sleep(time.Duration(1+k) * time.Millisecond)
+				}
+				if stay {
+					<-stop
+					_ = mine.Close()
+					return
+				}
+				_ = mine.Close()
+			}
+		}(i)
+	}
 	time.Sleep(dur * 2 / 3)
 	// Close racing with traffic
 	closed := make(chan error, 1)
@@ -254,7 +307,7 @@ func TestVerif_C18Stress(t *testing.T) { //nolint:cyclop
 		_ = c.conn.Close()
 	}
 	wd := make(chan struct{})
-	go func() { wg.Wait(); close(wd) }()
+	go func() { wg.Wait(); streamWG.Wait(); close(wd) }()
 	watchdog("client goroutines", wd)
 	col := verifsim.NewCollector("C18stress", "C18Check")
 	col.Extra["stress_requests_sent"] = sent.Load()
